@@ -6,7 +6,8 @@ From Coq Require Import List NArith Bool Arith.
 From Coq Require String.
 From Coq.Strings Require Import Byte.
 Import ListNotations.
-From OV Require Import Base.Bytes Base.Utf8 Model.Edi Proofs.Edi Proofs.EdiUnits Proofs.EdiRT Proofs.EdiCover.
+From OV Require Import Base.Bytes Base.Utf8 Base.ErrClass Gen.Continuable Gen.EdiShape
+  Model.Edi Proofs.Edi Proofs.EdiUnits Proofs.EdiRT Proofs.EdiCover Proofs.EdiSpec.
 
 (* ByteIndexWithEsc, for EVERY byte string s, every non-empty delim and every esc (empty or not):
    the result is the first position at which delim occurs without being preceded by an odd run of
@@ -175,6 +176,46 @@ Proof.
   eexists. eexists. split; [vm_compute; reflexivity|]. split; [discriminate|].
   split; [vm_compute; reflexivity|reflexivity].
 Qed.
+
+(* ---- rawSegToNode over ALL raw segments and declarations; error class; validation ---------------- *)
+
+(* seg_to_node_spec.  For every release character, every list of raw elements (any tokenisation
+   result, not only encoder output) and every declaration list: rawSegToNode never panics and
+   yields, per declaration in order, one node per raw element with that element index and
+   component index (1 when none is declared: Elem.compIndex, extracted) holding its unescaped
+   data; nothing matching gives the default when empty_if_missing or a default is declared (the
+   condition is extracted from the source), else the segment is an error. *)
+Theorem seg_to_node_spec : forall rel raw decls k,
+  seg_to_node rel k decls raw = Ok (nodes_spec rel k decls raw).
+Proof. exact seg_to_node_spec. Qed.
+
+(* the full reader over one declaration never panics, and a fatal result is the last one *)
+Theorem full_results_total : forall rel sname decls segs,
+  exists l, full_results rel sname decls segs = Ok l.
+Proof. exact full_results_total. Qed.
+
+Theorem full_results_fatal_last : forall rel sname decls segs l,
+  full_results rel sname decls segs = Ok l ->
+  forall i, nth_error l i = Some RFatal -> S i = length l.
+Proof. exact full_results_fatal_last. Qed.
+
+(* edi_errors_terminal.  The errors for "missing segment name" (as the full reader passes it on)
+   and for a declared element that is absent without default are, by the constructors found in
+   the source (Gen/EdiShape.v), the format's fatal type; by the extracted IsContinuableError
+   bodies (Gen/Continuable.v) neither the EDI reader nor the ingester calls it continuable. *)
+Theorem edi_errors_terminal :
+  Forall (fun k => k = RcFatal /\ continuable_edi k = false /\
+                   continuable_ingester continuable_edi k = false)
+         [edi_missing_name_class; edi_reader_wrap_class; edi_missing_elem_class].
+Proof. exact errors_terminal. Qed.
+
+(* edi_validation_gap.  cfg_ok is NOT what schema validation enforces: the JSON schema (minLength
+   values extracted into Gen/EdiShape.v) only demands non-empty strings.  There is a configuration
+   it accepts and a well-formed segment for which the round trip fails. *)
+Theorem edi_validation_gap : exists c segs,
+  schema_valid c /\ Forall (segx_ok c) segs /\ ~ cfg_ok c /\
+  nv_read_all c (edi_encode c segs) <> Ok (map (fun x => exp_seg c (ls_seg x)) segs).
+Proof. exact validation_gap. Qed.
 
 (* The first version of these theorems (first bytes ASCII, byte-wise encoder) as corollaries. *)
 Theorem cfg_ok_ascii_ok : forall c, cfg_ok_ascii c -> cfg_ok c.
@@ -358,6 +399,14 @@ Proof.
   split; [|vm_compute; reflexivity].
   apply (scan_is_token (hx "7e") (hx "3f") (hx "412a3f7e317e427e")); [discriminate|vm_compute; reflexivity].
 Qed.
+
+(* seg_to_node_spec on a raw segment no encoder produces (a dangling release character, the same
+   (index, component) twice): values are what ByteUnescape makes of them *)
+Example seg_to_node_spec_ex :
+  nodes_spec (hx "3f") 0 [mkED 1 None false None; mkED 2 (Some 2) true None; mkED 3 None false (Some (hx "64"))]
+             [mkRE 0 1 (hx "41"); mkRE 1 1 (hx "613f"); mkRE 1 1 (hx "3f3f62"); mkRE 2 1 (hx "78")] =
+    Some [(0, hx "61"); (0, hx "3f62"); (1, []); (2, hx "64")].
+Proof. vm_compute. reflexivity. Qed.
 
 (* the side condition is not idle: an element delimiter "*?" whose tail contains the release
    character "?" makes the segment delimiter after an empty last element look escaped, and the
